@@ -51,6 +51,7 @@ package Electiontrigger
 // a trigger whose registration was already cancelled is never written to the election channel
 //@ func triggerElections
 //@   props C19 C16
+//@   modifies ghost:nsent
 //@   requires triggerCancelled != nil
 //@   ensures [cancelled-trigger-is-not-sent] old(closed[triggerCancelled]) ==> nsent == old(nsent)
 //@   ensures [at-most-one-send] nsent <= old(nsent) + 1
